@@ -134,15 +134,32 @@ def run(res):
         st_lines.append("parseclass st2094 " + C.hexs(bytes(x)))
     for k in range(0, 12):
         st_lines.append("parseclass st2094 " + C.hexs(bytes(r.randrange(256) for _ in range(k))))
+    # behind the two accepted forms: the bare T.35 message (B5 00 31 'GA94' type ...) and the SEI NAL form
+    # (4E 01 04 <payload_size> B5 00 31 ...) with honest and lying payload sizes, every truncation of a few
+    bare_pre = bytes([0xB5, 0x00, 0x31, 0x47, 0x41, 0x39, 0x34])
+    st_forms = []
+    for _ in range(400 if res.tier == "quick" else 6000):
+        body = bytes([r.choice([8, 9, 8, 9, r.randrange(256)])]) + bytes(r.choice([0, 0, 0xFF, 0x80, 1, r.randrange(256)]) for _ in range(r.choice([0, 1, 2, 5, 9, 20, 40])))
+        bare = bare_pre + body
+        st_forms.append(bare)
+        ss = r.choice([len(bare), len(bare), len(bare) + 1, len(bare) + r.randrange(1, 200), max(0, len(bare) - r.randrange(1, 8)), 0, 3, 4, 255])
+        st_forms.append(bytes([0x4E, 0x01, 0x04, ss & 0xFF]) + bare + r.choice([b"", b"\x80", b"\x00\x00"]))
+    for f in st_forms[:12]:
+        for k in range(len(f) + 1):
+            st_forms.append(f[:k])
+    st_forms += [bytes([0x4E, 0x01, 0x04, ss, 0xB5, 0x00, 0x31]) for ss in (0, 1, 2, 3, 4, 5, 100, 255)]
+    st_lines += ["parseclass st2094 " + C.hexs(f) for f in st_forms]
     so = C.run_sharded(lambda: C.dvh(limit_as=AS_LIMIT), st_lines, timeout=600)
+    st_classes = {}
     for l, o in zip(st_lines, so):
+        st_classes[RC.klass(o)] = st_classes.get(RC.klass(o), 0) + 1
         if RC.klass(o) in ("panic", "abort", "timeout"):
             res.violation("ST 2094-10 parser did not return: %s on %s" % (o, l[:160]), {"op": "parseclass st2094", "input": l.split()[2], "impl": o})
     res.coverage.update({
         "evaluations": len(lines) + len(st_lines),
         "distinct_nontrivial": len(set(lines)),
-        "rule": "valid value trees / assets / witnesses with 1..4 byte or bit mutations (75% CRC-repaired), exp-Golomb extremes up to 2^64 spliced at random bit offsets, truncation at every byte, NALs cut on their escaped bytes (after each emulation prevention byte, at random bytes) with tails such as 00 00 03 / 00 00 / 03, random bytes behind each accepted prefix, short and zero-tailed buffers, mutated / truncated AV1 payloads and long read_more chains, mutated ST 2094-10 SEI; each call in a worker with a 1 GiB address-space limit; outcome class compared with the model (RPU, NAL, AV1 entry points); distinct inputs counted",
-        "impl_outcome_classes": classes, "disagreements": nd,
+        "rule": "valid value trees / assets / witnesses with 1..4 byte or bit mutations (75% CRC-repaired), exp-Golomb extremes up to 2^64 spliced at random bit offsets, truncation at every byte, NALs cut on their escaped bytes (after each emulation prevention byte, at random bytes) with tails such as 00 00 03 / 00 00 / 03, random bytes behind each accepted prefix, short and zero-tailed buffers, mutated / truncated AV1 payloads and long read_more chains, ST 2094-10 messages behind both accepted forms (bare T.35 and SEI NAL with honest / lying payload sizes), truncated at every byte; each call in a worker with a 1 GiB address-space limit; outcome class compared with the model (RPU, NAL, AV1 entry points); distinct inputs counted",
+        "impl_outcome_classes": classes, "st2094_outcome_classes": st_classes, "disagreements": nd,
         "samples": [lines[0][:160], lines[len(lines) // 2][:160], st_lines[0][:120]],
     })
     res.assumptions += ["stack depth, allocator behaviour and third-party internals beyond the mirrored functions are observed, not proved", "C API wrappers are exercised by C20"]
